@@ -9,7 +9,9 @@ import (
 // Atoms (DESIGN §3).
 var AtomsQ = []string{"0", "2", "2.5", `""`, `"a"`, "true", "false", "nil"}
 var AtomsT = append(append([]string{}, AtomsQ...),
-	"1", "7", "0x10", "010", "9223372036854775807", "0.0", "1e2", "1e21", "2.5e-7", `"b"`, `"a\tb"`, `"10"`, `"c\\"`)
+	"1", "7", "0x10", "010", "9223372036854775807", "0.0", "1e2", "1e21", "2.5e-7", `"b"`, `"a\tb"`, `"10"`, `"c\\"`,
+	// strings whose content is spelled like another literal / keyword / identifier of the program
+	`"2.5"`, `"1e2"`, `"true"`, `"nil"`, `"vi"`)
 
 var BinOps = []string{"+", "-", "*", "/", "==", "!=", "<", "<=", ">", ">=", "and", "or"}
 var PreOps = []string{"-", "+", "not"}
